@@ -152,6 +152,7 @@ void prop(Src& s, Ctx& ctx) {
         try {
             std::string text = run_aux(a, blk.ptr, n);
             ok = true;
+            ctx.result(text);
             ctx.hash(hash_str(text) & 0xff);
         } catch (const exception_base&) {
         } catch (const PropFail&) {
@@ -202,6 +203,7 @@ void prop(Src& s, Ctx& ctx) {
         f.msg += " entry=" + std::string(e.name) + " input=" + hex(data);
         throw;
     }
+    ctx.result(to_text(pv));  // every getter value is part of the result: it must not depend on uninitialised memory
     std::multiset<int> codes;
     try {
         touch_extras(*pdu, ctx, codes);
